@@ -153,6 +153,22 @@ FUNCS += [
     dict(id='Concat', file='src/pointer.rs', fn='concat', impl=PTR_IMPL, lean='Pointer.concat',
          params=[('self', 'ptrself'), ('other', 'ptrself')], ret='pure', rtype='Bytes', imports=['Append']),
 ]
+# the comparison impls between Pointer / PointerBuf / str / &str / String (C17): one function per impl block
+CMP_IMPLS = [('PartialEq', l, r) for (l, r) in [
+    ('Pointer', '&str'), ('&Pointer', 'String'), ('Pointer', 'str'), ('&str', 'Pointer'), ('String', 'Pointer'), ('str', 'Pointer'),
+    ('Pointer', 'String'), ('Pointer', 'PointerBuf'), ('PointerBuf', 'Pointer'), ('String', 'PointerBuf'), ('PointerBuf', 'String'),
+    ('str', 'PointerBuf'), ('&str', 'PointerBuf'), ('&Pointer', 'PointerBuf'), ('PointerBuf', '&Pointer'), ('PointerBuf', '&str'), ('PointerBuf', 'str')]] + \
+  [('PartialOrd', l, r) for (l, r) in [
+    ('Pointer', 'PointerBuf'), ('PointerBuf', 'Pointer'), ('PointerBuf', '&Pointer'), ('String', 'Pointer'), ('&Pointer', 'String'), ('String', 'PointerBuf'),
+    ('str', 'Pointer'), ('str', 'PointerBuf'), ('&str', 'PointerBuf'), ('&str', 'Pointer'), ('&Pointer', '&str'), ('Pointer', 'String'),
+    ('PointerBuf', '&str'), ('&Pointer', 'PointerBuf'), ('PointerBuf', 'String')]]
+def _cmp_name(t): return t.replace('&', 'Ref')
+for _tr, _l, _r in CMP_IMPLS:
+    _id = ('Eq' if _tr == 'PartialEq' else 'Cmp') + _cmp_name(_l) + _cmp_name(_r)
+    FUNCS.append(dict(id=_id, file='src/pointer.rs', fn='eq' if _tr == 'PartialEq' else 'partial_cmp',
+                      impl=r"impl " + _tr + "<" + re.escape(_r) + r"> for " + re.escape(_l) + r" \{",
+                      lean=('cmp.eq_' if _tr == 'PartialEq' else 'cmp.partial_cmp_') + _cmp_name(_l) + '_' + _cmp_name(_r),
+                      params=[('self', 'ptrself'), ('other', 'ptrself')], ret='pure', rtype='Bool' if _tr == 'PartialEq' else 'Option Ordering', cmpimpl=True))
 PE_IMPL = r"impl ParseError \{"
 FUNCS += [
     dict(id='ParseErrOffset', file='src/pointer.rs', fn='offset', impl=PE_IMPL, lean='ParseError.offset', params=[('self', 'errself:parseerror')], ret='pure', rtype='Nat'),
@@ -547,6 +563,14 @@ class Fn:
                         return paren(f"match ({fn} self_doc {' '.join(acc)}) with\n| (self_doc, {r}) =>\n{ind(k(r, DOCCALLS[ps][1]))}")
                     return self.E(args[i], env, ctx, lambda a, ta: god(i + 1, acc + ['(([] : Loc), self_doc)' if ta == 'docref' else a]))
                 return god(0, [])
+            if ps == 'PartialOrd::partial_cmp' and len(args) == 2 and self.spec.get('cmpimpl'):
+                def whole(a):
+                    # `&x[..]` / `&x.0[..]`: the whole string
+                    while a[0] == 'un' and a[1] in ('&', '*'): a = a[2]
+                    if a[0] == 'index' and a[2][0] == 'range' and a[2][1] is None and a[2][2] is None: a = a[1]
+                    return a
+                return self.E(whole(args[0]), env, ctx, lambda a, ta: self.E(whole(args[1]), env, ctx,
+                              lambda b, tb: k(f"(some (lexCmp {a} {b}))", 'optord') if (ta in BYTESLIKE and tb in BYTESLIKE) else self.bad("partial_cmp(" + ta + ", " + tb + ")")))
             if ps == 'Label::new' and len(args) == 3:
                 return self.E(args[1], env, ctx, lambda o, to: self.E(args[2], env, ctx,
                               lambda l, tl: k(f"({o}, {l})", 'label') if (to == 'nat' and tl == 'nat') else self.bad("Label::new(_, " + to + ", " + tl + ")")))
@@ -770,6 +794,11 @@ class Fn:
                 tt, te = res_parts(tr); a = self.fresh('a'); ev = self.fresh('e'); m = self.fresh('m')
                 return k(paren(f"match {r} with\n| .ok {a} => Res.ok (Index.num {a})\n| .err {ev} => Res.err {ev}\n| .panic {m} => Res.panic {m}"), mk_res('index', te))
             if is_res(tr) and name == 'map_err' and len(args) == 1 and args[0] in (('path', ['ParseIndexError', 'from']), ('path', ['ParseIndexError', 'from_'])): return k(r, tr)
+            if self.spec.get('cmpimpl') and tr in BYTESLIKE and name in ('eq', 'partial_cmp') and len(args) == 1:
+                def aft_cmp(a, ta):
+                    if ta not in BYTESLIKE: raise Unsupported(name + "(" + ta + ")")
+                    return k(f"({r} == {a})", 'bool') if name == 'eq' else k(f"(some (lexCmp {r} {a}))", 'optord')
+                return self.E(args[0], env, ctx, aft_cmp)
             if tr == 'intotoken' and name == 'into' and not args: return k(r, 'tok')
             if tr == 'ptrself' and name == 'to_buf' and not args: return k(r, 'bufval')
             if tr == 'asrefptr' and name == 'as_ref' and not args: return k(r, 'ptrself')
